@@ -717,9 +717,39 @@ class ExcAnalysis:
                 self._merge(out, self._binop(n))
             elif isinstance(n, ast.Subscript) and isinstance(n.ctx, ast.Load):
                 self._merge(out, self._subscript(n))
+                if self._is_json_any(n.value):
+                    for c in ("builtins.TypeError", KE, "builtins.IndexError"):
+                        out.setdefault(c, Origin("implicit", f, n, "<any JSON value>[...]: the document need not be an object"))
+            elif isinstance(n, ast.Attribute) and isinstance(n.ctx, ast.Load) and self._is_json_any(n.value):
+                out.setdefault("builtins.AttributeError", Origin("implicit", f, n, f"<any JSON value>.{n.attr}: json.loads() may return None/a number/a string/a list"))
             elif isinstance(n, ast.Await):
                 self._merge(out, self._await(n))
         return out
+
+    def _is_json_any(self, e: ast.expr) -> bool:
+        """A local whose single definition is json.loads(...): any JSON value, unless an isinstance() test on it encloses the use."""
+        if not isinstance(e, ast.Name):
+            return False
+        d = self._local_def(e.id)
+        if not (isinstance(d, ast.Call) and norm_txt(d.func) in ("json.loads", "loads", "json.load")):
+            return False
+        p = getattr(e, "parent", None)
+        child: ast.AST = e
+        while p is not None and not isinstance(p, (ast.FunctionDef, ast.AsyncFunctionDef)):
+            if isinstance(p, ast.If) and child in p.body and any(isinstance(c, ast.Call) and norm_txt(c.func) == "isinstance" and c.args and norm_txt(c.args[0]) == e.id for c in ast.walk(p.test)):
+                return False
+            for fld in ("body", "orelse"):
+                blk = getattr(p, fld, None)
+                if isinstance(blk, list) and child in blk:
+                    for st in blk[: blk.index(child)]:
+                        if isinstance(st, ast.If) and st.body and isinstance(st.body[-1], (ast.Return, ast.Raise, ast.Continue)) and any(isinstance(c, ast.Call) and norm_txt(c.func) == "isinstance" and c.args and norm_txt(c.args[0]) == e.id for c in ast.walk(st.test)):
+                            return False
+            child, p = p, getattr(p, "parent", None)
+        if isinstance(p, (ast.FunctionDef, ast.AsyncFunctionDef)) and child in p.body:
+            for st in p.body[: p.body.index(child)]:
+                if isinstance(st, ast.If) and st.body and isinstance(st.body[-1], (ast.Return, ast.Raise)) and any(isinstance(c, ast.Call) and norm_txt(c.func) == "isinstance" and c.args and norm_txt(c.args[0]) == e.id for c in ast.walk(st.test)):
+                    return False
+        return True
 
     def _site(self, site: CallSite) -> dict[str, Origin]:
         out = Esc()
